@@ -118,3 +118,28 @@ func vhCfbMsatChain(lo, hi int) {
 	}
 	vhReach("opened")
 }
+
+// H11.cfb-chain: the one step every sector-chain walker (directory, short SAT,
+// short-sector container, stream reader) takes: for any table, any sector
+// number (negative, inside, exactly at the end, beyond) and any step count it
+// returns the table's entry for a sector inside the table, or an error; it
+// never indexes outside the table and never lets a walk outlast the table.
+func VH_C11_CfbChainNext() {
+	n := vhConcretize(vhInt("table-entries", 0, 3), 4)
+	sat := make([]SecID, n)
+	for i := range sat {
+		sat[i] = SecID(vhU32("entry"))
+	}
+	sector := SecID(vhU32("sector"))
+	steps := vhInt("links-followed-so-far", 0, 5)
+	before := steps
+	next, err := chainNext(sat, sector, &steps)
+	if err == nil {
+		vhReach("stepped") // vh:require stepped
+		vhAssert(sector >= 0 && int(sector) < n, "only-sectors-inside-the-table-are-followed")
+		vhAssert(next == sat[vhConcretize(int(sector), 4)], "next-is-the-table-entry")
+		vhAssert(steps == before+1 && steps <= n, "walk-cannot-outlast-the-table")
+	} else {
+		vhReach("refused") // vh:require refused
+	}
+}
